@@ -32,7 +32,8 @@ def gen_cases(tier, seed):
         for wt in ("rhf", "uhf"):
             for rep in range((2 if entry in ("ad", "ad_norot") else 1) if q else 4):
                 single = bool(rep % 2 == 0)
-                shape = [int(rng.integers(2, 5)), 1 if single else 2, 1 if single else int(rng.integers(1, 3))]
+                # multi-block shapes always contain an in-block reconfiguration that later energy blocks depend on (n_sr_blocks >= 2)
+                shape = [int(rng.integers(2, 5)), 1 if single else int(rng.integers(1, 3)), 1 if single else int(rng.integers(2, 4))]
                 cases.append({"type": "deriv", "entry": entry, "wt": wt, "shape": shape, "dt": float(rng.choice([0.01, 0.03])),
                               "s": int(rng.integers(1 << 30)), "group": "d-%s-%s-%d" % (entry, wt, rep), "cost": 60})
     for wt in (("uhf",) if q else ("rhf", "uhf")):
